@@ -19,7 +19,7 @@ N_THOROUGH = 15000
 EXPLANATION = ''
 
 def profiles(thorough):
-    p = Profile(nT=4, nS=5, nG=3, nC=8, nK=2, specs={"fn": 1, "mem": 4, "trk": 4, "trk2": 2, "bref": 3, "nest": 3, "fwd": 0, "ownT": 2, "ownK": 0},
+    p = Profile(nT=4, nS=5, nG=3, nC=8, nK=2, specs={"fn": 1, "mem": 4, "trk": 4, "trk2": 2, "bref": 3, "nest": 3, "fwd": 0, "ownT": 2, "ownK": 0, "sc": 3},
                 body_prob=0.35, len=(15, 60 if not thorough else 150),
                 w={"newT": 5, "delT": 6, "notifyT": 2, "cpT": 1, "mvT": 2, "asgT": 2, "masgT": 2, "mkS": 8, "cpS": 4, "mvS": 3,
                    "asgS": 4, "masgS": 3, "conn": 8, "connfn": 6, "emptyS?": 6, "callS": 4, "connected?": 5, "size?": 4,
